@@ -40,6 +40,14 @@ CHECKS = {
    technique="symbolic execution (z3-backed bytes) of cpu.disassemble with the real hooks at several fetch-window sizes; per path SMT proofs that the instruction bytes are the leading input bytes and, by partition refinement between the path sets of two windows, that the instruction (mnemonic, length, operands with symbolic immediates) is the same function of the consumed bytes",
    text="Bounded model checking per spec: path sets at windows maxlen, maxlen+2 and the observed consumed lengths; each instruction path is proven to consume a prefix of its input, to mention only consumed bytes, and to yield the same instruction from every other window that shares an input with it (skeleton equality + solver equality of every symbolic field). Counterexamples are replayed with the real decoder on the truncated / extended inputs.",
    note="trusted: z3, symx proxies (concolic replay of path models through the real decoder), SymDict tree lookup; register selectors realized under a cap of 2 values per site (capped sites counted); quick covers 1/40 of the specs per cpu"),
+ "C08": dict(level="model_checking", engine="E2", design="DESIGN.md section 4 C08",
+   technique="symbolic execution (z3-backed ints) of MemoryZone/MemoryMap write/read/copy/restruct/shift/merge scripts with symbolic addresses; per path and read byte an SMT proof of equality with a z3 last-write-wins model",
+   text="Bounded model checking per script: every overlap configuration of <= 4 writes (raw bytes, constants, registers, compositions, slices; 1..4 bytes; either endianness) and <= 2 reads is a path (addresses are independent 5-bit symbols); each read byte is proven to be the most recent write covering it, never-written bytes undefined. Path models are re-run concretely against a python dict.",
+   note="trusted: z3, symx proxies (concolic re-run), vf/termsmt.T for expression parts; explorations hitting the path/time cap are counted as incomplete"),
+ "C11": dict(level="model_checking", engine="E2", design="DESIGN.md section 4 C11",
+   technique="symbolic execution (z3-backed bytes) of cpu.disassemble with real hooks; inductive invariant checked at every path end (pending prefix instruction None, internals unchanged, also on exception paths) plus a symbolic two-call differential twin with SMT equality of the resulting instruction",
+   text="Bounded model checking of the inductive step: on every explored path of a decode call (short inputs, inputs behind each prefix byte, inputs focused on sampled specs) the decoder's history carriers are proven reset whatever the outcome; the twin harness explores d(b1); d(b2) against a fresh d(b2) for symbolic b2 and a pool of concrete b1 (prefix-only, truncated, undecodable, exception-raising) and proves the two instructions equal on every path.",
+   note="trusted: z3, symx proxies, the claim that disassembler.__i and cpu internals are the only history carriers of decoding (other mutable state, e.g. sign flags on shared registers, is C10's subject)"),
 }
 
 NA_REASON = "check not built yet (construction in progress)"
